@@ -237,6 +237,7 @@ def judgeStep (s : JS) (models : List (Nat × Router)) (idx : Nat) (op : Op) (im
       | none => s
       | some j =>
         let expect := specInsert j t
+        let s := { s with nontrivial := s.nontrivial.insert ("mut|" ++ liveKey j.live ++ "#i" ++ hex t) }
         let ok := if expect == "err Template" then implCore.startsWith "err Template" else implCore == expect
         let s := if !ok then s.emit s!"O {idx} C08 insert outcome: expected [{expect}] got [{implCore}]" else s
         let s := templateErrOracle s idx t implCore
@@ -250,6 +251,7 @@ def judgeStep (s : JS) (models : List (Nat × Router)) (idx : Nat) (op : Op) (im
       | none => s
       | some j =>
         let expect := specDelete j t
+        let s := { s with nontrivial := s.nontrivial.insert ("mut|" ++ liveKey j.live ++ "#d" ++ hex t) }
         let ok := if expect == "err Template" then implCore.startsWith "err Template" else implCore == expect
         let s := if !ok then s.emit s!"O {idx} C09 delete outcome: expected [{expect}] got [{implCore}]" else s
         let s := templateErrOracle s idx t implCore
@@ -266,6 +268,7 @@ def judgeStep (s : JS) (models : List (Nat × Router)) (idx : Nat) (op : Op) (im
     | .parse t =>
       let spec := specParse t
       let s := s.bump (if spec.isSome then "parse.accepted" else "parse.rejected")
+      let s := { s with nontrivial := s.nontrivial.insert ((if spec.isSome then (if (spec.getD []).length > 1 then "groups|" else "accepted|") else "rejected|") ++ hex t) }
       if implCore.startsWith "ok" then
         let s := if spec.isNone then s.emit s!"O {idx} C11 parser accepts a template the grammar rejects" else s
         if spec.isSome && showSpecParsed spec != implCore then
@@ -293,7 +296,7 @@ def judgeStep (s : JS) (models : List (Nat × Router)) (idx : Nat) (op : Op) (im
             | some bytes =>
               let errs := checkDrawing (bytesToString bytes) (routes.map (fun rt => renderParts rt.parts))
               let s := s.bump "c15.checked"
-              let s := if routes.length ≥ 3 then { s with nontrivial := s.nontrivial.insert ("tree#" ++ liveKey j.live) } else s
+              let s := if routes.length ≥ 3 then { s with nontrivial := s.nontrivial.insert ("tree|" ++ liveKey j.live) } else s
               match errs with
               | [] => s
               | e :: _ => s.emit s!"O {idx} C15 {e}"
@@ -314,7 +317,7 @@ def judgeStep (s : JS) (models : List (Nat × Router)) (idx : Nat) (op : Op) (im
         let nfit := fitting.length
         let s := s.bump (if nfit == 0 then "search.fit0" else if nfit == 1 then "search.fit1" else "search.fit2+")
         let lk := liveKey j.live
-        let s := if nfit ≥ 2 then { s with nontrivial := s.nontrivial.insert (lk ++ "#" ++ hex path) } else s
+        let s := if nfit ≥ 2 then { s with nontrivial := s.nontrivial.insert ("fit2|" ++ lk ++ "#" ++ hex path) } else s
         match parseMatchLine implCore with
         | none => if implCore.startsWith "panic" then s else s.emit s!"O {idx} C01 unparsable search result {implCore}"
         | some none =>
@@ -343,7 +346,8 @@ def judgeStep (s : JS) (models : List (Nat × Router)) (idx : Nat) (op : Op) (im
             | [lt] => (match lt.exps with
               | [(_, parts)] =>
                 let s := s.bump "c12.single"
-                let s := if countFits env parts path ≥ 2 then s.bump "c12.ambiguous" else s
+                let s := if countFits env parts path ≥ 2 then
+                  { (s.bump "c12.ambiguous") with nontrivial := s.nontrivial.insert ("ambiguous|" ++ hex lt.template ++ "#" ++ hex path) } else s
                 if greedy env parts path != some m.params then s.emit s!"O {idx} C12 not the leftmost-longest assignment" else s
               | _ => s)
             | _ => s
@@ -397,6 +401,9 @@ def judge (ops impl : String) : IO Unit := do
   let out ← IO.getStdout
   let s ← judgeLoop (IO.FS.Stream.ofHandle h1) (IO.FS.Stream.ofHandle h2) out {} [] 0
   for (k, v) in s.stats.toList do out.putStrLn s!"S {k} {v}"
-  out.putStrLn s!"S distinct_nontrivial {s.nontrivial.size}"
+  let cats := s.nontrivial.fold (fun (m : HashMap String Nat) k =>
+    let c := (k.splitOn "|").headD ""
+    m.insert c (m.getD c 0 + 1)) {}
+  for (k, v) in cats.toList do out.putStrLn s!"S nt.{k} {v}"
 
 end Driver
